@@ -26,7 +26,8 @@ def _compile_worker(job):
         rec = {"source": src, "outcome": {"error": "harness", "message": f"{type(e).__name__}: {e}"}}
     rec["id"] = idx
     rec["compile_s"] = round(time.time() - t0, 3)
-    rec.pop("ir_lowered", None)
+    if not os.environ.get("VERIF_KEEP_LOWERED"):
+        rec.pop("ir_lowered", None)
     return rec
 
 
@@ -41,7 +42,7 @@ def _pool_main():
             sys.stdout.flush()
 
 
-def compile_many(sources, opts=None, timeout=3000):
+def compile_many(sources, opts=None, timeout=3000, keep_lowered=False):
     """sources: list of str or (str, opts). Returns list of artefact records (same order)."""
     jobs = []
     for i, s in enumerate(sources):
@@ -50,6 +51,8 @@ def compile_many(sources, opts=None, timeout=3000):
         else:
             jobs.append({"id": i, "source": s, "opts": opts or {}})
     env = dict(os.environ, PYTHONPATH=REPO + os.pathsep + HERE, FACTO_REPO=REPO)
+    if keep_lowered:
+        env["VERIF_KEEP_LOWERED"] = "1"
     p = subprocess.run([PY, os.path.join(HERE, "pipeline.py"), "--pool"], input="\n".join(json.dumps(j) for j in jobs) + "\n",
                        capture_output=True, text=True, env=env, timeout=timeout, cwd="/")
     if p.returncode != 0:
